@@ -108,7 +108,7 @@ def check(ctx):
     ctx.note("greenback_scenarios", o["greenback_n"])
     ctx.note("interpreters", ["3.12"])
     for mm in o["mismatches"]:
-        if "harness" in mm["what"]:
+        if mm["what"].startswith("harness"):
             raise MachineryError(str(mm))
         ctx.violation(mm["what"] + f" (parents {mm.get('parent')})", mm)
     for mm in o["f8"]:
